@@ -1225,6 +1225,20 @@ def c15(case, lines):
 # ---- C16 ------------------------------------------------------------------------------------------
 @oracle("C16")
 def c16(case, lines):
+    if (case.get("id") or "").startswith("blocked-write-repolled-"):
+        tr_ = Trace(case, lines)
+        rr_ = tr_.run_result()
+        if rr_ is not None:
+            return "blocked: the transport blocked a write (Pending) and took it up again later; the task was polled in between and run() gave up with %s at event %d" % (rr_[1][:40], rr_[0])
+        w_ = M.split_packets(bytes(wire_of(lines)))
+        kinds = [M.tx_info(p_)["kind"] for p_ in (w_ or [])]
+        if w_ is None or kinds.count("publish") != (2 if ("-request" in case["id"] or "-two" in case["id"]) else 1) or kinds.count("pingreq") != 1:
+            return "blocked: after the blocked write was taken up again the wire holds %s (whole packets: %s); one CONNECT, one PINGREQ and each PUBLISH once were written" % (kinds, w_ is not None)
+        d_ = tr_.done()
+        inbound_pingresp = any(e == "deliver d000" for e in tr_.evs)
+        if not any(r.startswith("ok") for _, r in d_.get(1, [])) or (inbound_pingresp and not d_.get(0)):
+            return "blocked: the publish whose write had been blocked (and the ping whose PINGRESP arrived meanwhile) did not complete (%s)" % {k: v[:1] for k, v in d_.items()}
+        return None
     if not (case.get("meta") or {}).get("malformed"):
         r_ = rejected_wellformed(Trace(case, lines), "an extra poll of the Context task in between destroyed bytes already read")
         if r_:
